@@ -30,6 +30,10 @@ CLAIMED = {
          "Exploration: Curve2::ray_intersections / try_create_spanning_ray / max_intersection / farthest_point_direction_distance / intersection with a surface point's normal line on polylines of 5..5000 edges in layouts that shape the bounding-volume tree differently, with rays at every multiple of 15 degrees, exact axis directions incl. -0.0, origins inside/outside/behind/on a vertex/on an edge, lines through two vertices and lines parallel to an edge. The accelerated list must equal the sorted, 1e-8-de-duplicated per-edge list; independently every robust sign-change edge must be represented, every reported crossing must lie on its edge, and a vertex that is exactly the ray origin must be reported at t=0.",
          "Definitional oracle uses the public per-edge primitive (declared exception in DESIGN 2.4); the independent oracles skip edges nearer to the line than 1e-9*(extent+offset), |det| < 1e-10 and crossing angles with sin < 1e-6 (counted). Thorough tier adds Miri and AddressSanitizer passes (custom SIMD slab test over parry's QBVH).",
          "3 / C06"),
+ "C07": ("runtime monitor: known-displacement oracle, residual recomputation, and an offline checker over the hooked Levenberg-Marquardt event log (set_params / residuals / jacobian)",
+         "Exploration: points_to_curve (2D) and points_to_mesh (3D, both DistMode values) on asymmetric references with harness-drawn samples; displacement and starting guess inside a calibrated basin (incl. starting guesses that are large poses with pitch exactly or nearly +-90 degrees) must be recovered; for every Ok result (in or out of the basin) each residual is recomputed from the returned transform, the objective must not exceed its value at the start, and the recorded LM trace is replayed: every residual/Jacobian evaluation must belong to the latest set_params, logged residuals must equal the residuals at the logged parameters, sampled Jacobian rows must match central differences, and the returned transform must be the transform at the final parameters.",
+         "Basin (2D: 2% of size / 6 deg; 3D: 3% / 6 deg, shared between displacement and guess) is half of the region in which every calibration run on the unchanged tree converged; samples keep a margin from corners/creases where the surface normal is a tie; recovery tolerance 1e-6*size (1e-4 ToPoint). Uses hook H3 (event log).",
+         "3 / C07"),
 }
 
 def main():
